@@ -66,6 +66,10 @@ class FakeDongle:
     def exchange(self, apdu, timeout=None):
         apdu = bytes(apdu)
         self.world.trace.append(("A", apdu))
+        if not self.opened:
+            # a handle that has been closed carries nothing any more
+            self.world.answers.append(("W",))
+            raise BaseException("Error while writing")
         if self.dead:
             self.world.answers.append(("W",))
             raise BaseException("Error while writing")
